@@ -206,7 +206,7 @@ CRASH_RULE = ("per protocol: grammar spaces (every set id / length-field mode / 
               "dense spaces: datagrams up to the UDP maximum made of the smallest units (64..16000 sets of 4..8 octets of every kind, 64000 one-octet records, thousands of empty sFlow samples / records), "
               "mutation closure of well-formed seeds (every truncation, every single-octet substitution with {00,01,7f,80,ff,v+1,v-1}; thorough: every pair of positions in the first 64 octets), "
               "and template-cache histories (explicit-state: every pair of template announcements for two ids from the adversarial template alphabet = every cache state over those ids, then every data datagram of the data alphabet from every state; 3 exporter address forms). "
-              "Non-trivial = non-empty datagram (grammar/mutation) / distinct canonical cache state (history); distinct by FNV-64 of the octets / of the canonical state.")
+              "Non-trivial = non-empty datagram (grammar/mutation) / distinct canonical cache state (history); distinct by FNV-64 of the octets / of the canonical state. history: besides the data datagrams, after every history ONE datagram holding data for an id, a template set re-defining that id (every template body of the alphabet for id 256, thorough also 300) and data for the id again.")
 
 
 def crash_check(pid, tier, alloc):
@@ -334,7 +334,7 @@ def c04(tier):
     res = [run_space(b, "cache.bfs", tier, hang_s=300), run_space(b, "cache.capacity", tier, hang_s=300), aging_space()]
     return finish("C04", tier, res,
                   rule="explicit-state BFS to closure, IPFIX and NetFlow v9: state = reference map over 6 keys (A/256, A/257, the same IPv4 in 4-byte form, an IPv6 exporter, and two exporters whose addr||id collide under 32-bit FNV-1; thorough adds an IPv6 colliding pair) -> one of 4 definitions (two element lists of equal length and type width, one with the same element but another field length, one with two fields) or none (thorough: 8 keys incl. an IPv6 colliding pair x 3 definitions, and 6 keys x 5 definitions); events per key: announce alone / template then data in one message / data then template in one message / data / peer IRPC.Get / peer-fetched insert; "
-                       "the reference model is searched on its own to enumerate every state with a shortest history (announcing event kinds rotate); each state is a case: successor = replay of that history on a fresh real cache + the event; after every transition every key is probed with a data message (decoded under exactly ref[k], or 'unknown template' with no records) and the canonical cache content must be a function of the reference state. Non-trivial = every reference state; distinct by state. Mode 'derived-addr': exporters that coincide in part of their address (two IPv6 exporters with the same low 32 bits, an IPv6 and an IPv4 exporter with the same low 32 bits). Every message of a history carries lower header times and sequence numbers than the one before. Mode 'options': three keys x three options templates that differ only in the scope field / only in the option field / in both. Mode 'undecodable': definitions naming an element absent from the model (data for them yields nothing) superseding and superseded by a decodable one. cache.capacity: one exporter announces, N other exporter/id pairs announce afterwards (N in {1, 31..33, 1000, 4095..4097, 40000, 140000}; thorough up to 600000; with the same and with other template ids), then the first exporter's data and that of every 97th other must decode under their own templates - the statement has no bound on how many exporters there are." + AGING_RULE,
+                       "the reference model is searched on its own to enumerate every state with a shortest history (announcing event kinds rotate); each state is a case: successor = replay of that history on a fresh real cache + the event; after every transition every key is probed with a data message (decoded under exactly ref[k], or 'unknown template' with no records) and the canonical cache content must be a function of the reference state. Non-trivial = every reference state; distinct by state. Mode 'derived-addr': exporters that coincide in part of their address (two IPv6 exporters with the same low 32 bits, an IPv6 and an IPv4 exporter with the same low 32 bits). Every message of a history carries lower header times and sequence numbers than the one before. Mode 'options': three keys x three options templates that differ only in the scope field / only in the option field / in both. Mode 'undecodable': definitions naming an element absent from the model (data for them yields nothing) superseding and superseded by a decodable one. cache.capacity: one exporter announces, N other exporter/id pairs announce afterwards (N in {1, 31..33, 1000, 4095..4097, 40000, 140000}; thorough up to 600000; with the same and with other template ids), then the first exporter's data and that of every 97th other must decode under their own templates - the statement has no bound on how many exporters there are. Event 'ann-cut' from every state: an announcement whose datagram ends inside the template's field list is not a definition - the reference state, the probes and the cache content must not change." + AGING_RULE,
                   assumptions=["states are merged on the reference map; the implementation's canonical cache content (read from the exported structure, timestamps dropped) is checked to be a function of it, which is what makes the merge sound",
                                "the FNV-colliding exporter pairs were found offline by a birthday search and are recomputed with hash/fnv at start-up",
                                "peer-fetched insert uses the cache's private insert through a verif-tagged export file injected by the overlay"], t0=t0)
